@@ -159,12 +159,35 @@ impl<'a> Context<'a> {
             return Ok(cached.clone());
         }
         let element = match self.as_of {
-            Some(seq) => self.store.element_at(&self.space, id, seq).await?,
+            Some(seq) => {
+                let past = self.store.element_at(&self.space, id, seq).await?;
+                self.readable_now(past).await
+            }
             None => self.store.get_element(id).await.ok(),
         };
         let element = self.admit(element);
         self.loaded.insert(id, element.clone());
         Ok(element)
+    }
+
+    /// Drops a historical version of an element this caller may not read
+    /// *today*.
+    ///
+    /// A version row carries the Governance block the element had when that
+    /// version was written. An element that was written first and classified
+    /// afterwards — the only order there is, since content cannot label itself
+    /// — therefore has versions that state no label at all, and judging the
+    /// read by them would hand the content back to anyone who names a
+    /// coordinate before the classification. Current Governance controls
+    /// historical visibility (Spec §48.5, §102.14): the element as it stands
+    /// now has to be readable, *and* the version that is returned still goes
+    /// through [`Context::admit`] under what it carried then, so a later
+    /// declassification does not open an older, more sensitive text either.
+    async fn readable_now(&self, past: Option<Element>) -> Option<Element> {
+        let past = past?;
+        let current = self.store.get_element(past.id()).await.ok()?;
+        self.authority.may_read(&current, self.auth)?;
+        Some(past)
     }
 
     /// Applies the read decision to one loaded element, caching its view.
@@ -294,8 +317,10 @@ impl<'a> Context<'a> {
                 // re-reading it through `load` would answer from the present.
                 // It still goes through `admit`, because a past coordinate is
                 // not a way around the present's authorization — the read is
-                // happening now, by this caller.
-                let admitted = self.admit(Some(element));
+                // happening now, by this caller, and is judged by what the
+                // element is classified as now as well as by what it was then.
+                let element = self.readable_now(Some(element)).await;
+                let admitted = self.admit(element);
                 self.loaded.insert(id, admitted.clone());
                 if admitted.is_some() {
                     ids.push(id);
